@@ -2086,8 +2086,10 @@ func (c S3ApiController) PutActions(ctx *fiber.Ctx) error {
 				})
 		}
 
-		partNumber := int32(ctx.QueryInt("partNumber", -1))
-		if partNumber < 1 || partNumber > 10000 {
+		// (the range is tested before the number is narrowed to 32 bits)
+		partNumberInt := ctx.QueryInt("partNumber", -1)
+		partNumber := int32(partNumberInt)
+		if partNumberInt < 1 || partNumberInt > 10000 {
 			if c.debug {
 				debuglogger.Logf("invalid part number: %d", partNumber)
 			}
@@ -2151,8 +2153,10 @@ func (c S3ApiController) PutActions(ctx *fiber.Ctx) error {
 
 	if ctx.Request().URI().QueryArgs().Has("uploadId") &&
 		ctx.Request().URI().QueryArgs().Has("partNumber") {
-		partNumber := int32(ctx.QueryInt("partNumber", -1))
-		if partNumber < 1 || partNumber > 10000 {
+		// (the range is tested before the number is narrowed to 32 bits)
+		partNumberInt := ctx.QueryInt("partNumber", -1)
+		partNumber := int32(partNumberInt)
+		if partNumberInt < 1 || partNumberInt > 10000 {
 			if c.debug {
 				debuglogger.Logf("invalid part number: %d", partNumber)
 			}
@@ -3352,7 +3356,12 @@ func (c S3ApiController) HeadObject(ctx *fiber.Ctx) error {
 	acct := ctx.Locals("account").(auth.Account)
 	isRoot := ctx.Locals("isRoot").(bool)
 	parsedAcl := ctx.Locals("parsedAcl").(auth.ACL)
-	partNumberQuery := int32(ctx.QueryInt("partNumber", -1))
+	partNumberInt := ctx.QueryInt("partNumber", -1)
+	if partNumberInt < 1 || partNumberInt > 10000 {
+		// (out of range also after narrowing to 32 bits)
+		partNumberInt = -1
+	}
+	partNumberQuery := int32(partNumberInt)
 	versionId := ctx.Query("versionId")
 	key := ctx.Params("key")
 	keyEnd := ctx.Params("*1")
